@@ -129,7 +129,7 @@ Definition C04_balancer_quote_below_reserve_full : Prop := forall p i j a fee ou
 Theorem C04_balancer_quote_below_reserve_refuted : ~ C04_balancer_quote_below_reserve_full.
 Proof.
   intros H. destruct witness_quote_whole_reserve as [Hq _].
-  specialize (H _ _ _ _ _ _ Hq). vm_compute in H. discriminate.
+  specialize (H _ _ _ _ _ _ Hq). clear Hq. vm_compute in H. discriminate H.
 Qed.
 Print Assumptions C04_balancer_quote_below_reserve_refuted.
 (* ... but since the repo's fix e9b34e9409 no EXECUTED swap takes a whole reserve *)
@@ -234,10 +234,14 @@ Definition C04_stable_full : Prop := forall p i j amt fee r p',
 Theorem C04_stable_full_refuted : ~ C04_stable_full.
 Proof.
   intros H. destruct witness_stable_invariant_falls as (p' & Hs & _ & Hlt).
-  specialize (H _ 0%nat 1%nat 1 0 1 p').
-  assert (Hle : (ss_k (s_res (mkS [f3_reserve; f3_reserve] [1024; 1024] 100000000000000000000)) (s_sf (mkS [f3_reserve; f3_reserve] [1024; 1024] 100000000000000000000))
-                 <= ss_k (s_res p') (s_sf p'))%Q).
-  { apply H; cbn [s_res s_sf]; try (repeat constructor; reflexivity); [split; [discriminate|reflexivity]|right; exact Hs]. }
+  set (p := mkS [f3_reserve; f3_reserve] [1024; 1024] 100000000000000000000) in *.
+  assert (Hle : (ss_k (s_res p) (s_sf p) <= ss_k (s_res p') (s_sf p'))%Q).
+  { apply (H p 0%nat 1%nat 1 0 1 p').
+    - unfold p; cbn [s_res]. constructor; [reflexivity|constructor; [reflexivity|constructor]].
+    - unfold p; cbn [s_sf]. constructor; [reflexivity|constructor; [reflexivity|constructor]].
+    - reflexivity.
+    - split; [discriminate|reflexivity].
+    - right; exact Hs. }
   apply Qle_not_lt in Hle. apply Hle. exact Hlt.
 Qed.
 Print Assumptions C04_stable_full_refuted.
